@@ -7,7 +7,7 @@ ROOT = os.path.dirname(os.path.dirname(os.path.abspath(__file__)))
 CLAIMED = {
  "C02": dict(
    technique="stateless exploration of real code from identical cold process states: BFS over compilation histories, preemption-bounded enumeration of thread schedules at hooked shared-state accesses, enumeration of hash seeds through getrandom interposition; oracle = fresh-process result",
-   text="Every execution runs in a child forked from a cold single-threaded zygote. History: all pairs over a 16-program alphabet (two of them the same source and files under different load paths) and all triples (thorough: 4-sequences) over a 7-program core, every position compared with the fresh-process result; every corpus program after 3 (thorough 14) alphabet programs on the same thread and repeated. Schedule: 2 (thorough 3) threads compiling programs that collide on the interner and the two global counters, all schedules with <= 1 preemption for every unordered pair of a 6-program alphabet, <= 2 (thorough 3) for the identifier pair, scheduling points = the three hook sites; replay divergence is a hard error. Hash seeds: every alphabet and corpus program under 6 (thorough 64) seeds. unique-id(): 1..64 calls distinct and valid.",
+   text="Every execution runs in a child forked from a cold single-threaded zygote. History: all pairs over a 19-program alphabet (two of them the same source and files under different load paths) and all triples (thorough: 4-sequences) over a 7-program core, every position compared with the fresh-process result; every corpus program after 3 (thorough 14) alphabet programs on the same thread and repeated. Schedule: 2 (thorough 3) threads compiling programs that collide on the interner and the two global counters, all schedules with <= 1 preemption for every unordered pair of a 6-program alphabet, <= 2 (thorough 3) for the identifier pair, scheduling points = the three hook sites; replay divergence is a hard error. Hash seeds: every alphabet and corpus program under 6 (thorough 64) seeds. unique-id(): 1..64 calls distinct and valid.",
    note="Sequential consistency between scheduling points (the hooks cover every access to process- or thread-global mutable state; once_cell initialisation is warmed up before the hook is installed). Seeds are a finite alphabet, not the 2^128 key space; allocation-address dependent behaviour (pointer hashing) is only reachable through the seed/history repetitions, not enumerated. unique-id distinctness rests on the RNG.",
    design="§3 C02, §2"),
  "C05": dict(
@@ -47,7 +47,7 @@ CLAIMED = {
    design="§3 C18"),
  "C20": dict(
    technique="complete product enumeration of CLI flags x input kinds x source/sink modes, each real process run compared with the library called in-process",
-   text="2^5 flag combinations x {file argument, --stdin} x {stdout, output file, unwritable output file} x 14 input kinds (1 760 process runs of the real binary built from /repo with the guard off): stdout/output file equals the library's CSS and exit 0; on a compile error exit != 0, stderr equals the warnings logged so far plus the library's rendered error, stdout empty; on I/O errors exit != 0 with a message and no CSS; warnings/debug on stderr only and absent with --quiet. Thorough adds every SCSS corpus input through --stdin under 8 style/charset/unicode combinations.",
+   text="2^5 flag combinations x {file argument, --stdin} x {stdout, output file, unwritable output file} x 15 input kinds (1 900 process runs of the real binary built from /repo with the guard off): stdout/output file equals the library's CSS and exit 0; on a compile error exit != 0, stderr equals the warnings logged so far plus the library's rendered error, stdout empty; on I/O errors exit != 0 with a message and no CSS; warnings/debug on stderr only and absent with --quiet. Thorough adds every SCSS corpus input through --stdin under 8 style/charset/unicode combinations.",
    note="StdLogger's text format is reproduced by the harness from the events a collecting Logger receives. Flag combinations the CLI cannot express (--stdin with an output file) are skipped.",
    design="§3 C20"),
 
@@ -84,8 +84,8 @@ CLAIMED = {
    design="§3 C10"),
  "C11": dict(
    technique="complete enumeration of ordered selector pairs over a 45-selector alphabet for every sass:selector function; semantic oracle on all DOM trees of <= 3 elements; cross-validation against the @extend / nesting machinery",
-   text="All 45^2 ordered pairs of a 45-selector alphabet: every is-superselector `true` answer verified on every DOM of <= 3 elements; every non-null selector-unify result matches only what both inputs match on every DOM, and null is refused for conflict-free compounds; selector-nest on all ordered pairs and selector-append with 5 suffixes equal the selector of the equivalent nested style rule compiled in the same stylesheet; selector-extend (45 selectors x 6 targets x 6 extenders) equals the rewritten selector of the corresponding @extend program as a set of complex selectors and selector-replace is contained in it; selector-parse then print keeps the match set on every DOM. A panic anywhere is a violation.",
-   note="DOM trees have <= 3 elements with labels over the features the judged selectors mention plus one unmentioned type; attribute and pseudo selectors with different text are independent opaque features. ::slotted and :not() with complex arguments are outside the alphabet for extend.",
+   text="All 45^2 ordered pairs of a 45-selector alphabet: every is-superselector `true` answer verified on every DOM of <= 3 (thorough 4) elements; every non-null selector-unify result matches only what both inputs match on every DOM, and null is refused for conflict-free compounds; selector-nest on all ordered pairs and selector-append with 5 suffixes equal the selector of the equivalent nested style rule compiled in the same stylesheet; selector-extend (45 selectors x 6 targets x 6 extenders) equals the rewritten selector of the corresponding @extend program as a set of complex selectors and selector-replace is contained in it; selector-parse then print keeps the match set on every DOM. A panic anywhere is a violation.",
+   note="DOMs are trees and forests of <= 3 (thorough 4) elements (a forest stands for a tree with one more, unlabelled, root) with labels over the features the judged selectors mention plus one unmentioned type; attribute and pseudo selectors with different text are independent opaque features. ::slotted and :not() with complex arguments are outside the alphabet for extend.",
    design="§3 C11"),
  "C12": dict(
    technique="exhaustive enumeration of module graphs (every edge kind between every ordered module pair) and of member-visibility / configuration shapes over an in-memory file system, against a reference module model",
